@@ -914,9 +914,11 @@ F('x-restore-binary-read', {'C20': ['R20.4']}, [('trashcli/restore/file_system.p
   "class RealFileReader(RealContentsOf, FileReader):\n    pass",
   "class RealFileReader(FileReader):\n    def contents_of(self, path):\n        with open(path, 'rb') as f:\n            return f.read().decode('utf-8')")],
   'restore reads .trashinfo in binary mode')
-F('x-list-own-collector', {'C20': ['R20.1']}, [('trashcli/parse_trashinfo/maybe_parse_deletion_date.py',
+S('x-list-own-collector', ['C20'], [('trashcli/parse_trashinfo/maybe_parse_deletion_date.py',
   "    result = Basket(unknown_date)\n", "    class Last(Basket):\n        def collect(self, value):\n            self.collected = value\n    result = Last(unknown_date)\n")],
-  'list keeps the date through its own collector class')
+  'list keeps the date through its own collector class with the same behaviour: nothing '
+  'changes while only the first DeletionDate line is ever decoded (was a fire entry of the '
+  'brittle collector-identity rule)')
 F('x-unquote-strict', {'C19': ['R19.1']}, [(PPATH, "unquote(line[len('Path='):])", "unquote(line[len('Path='):], errors='strict')")],
   'strict decoding error is not a ParseError: list aborts')
 
